@@ -8,6 +8,7 @@ NOTE = "Trusted base: the VC generator govc and its memory model (integers mathe
 claims = {
  "C20": ("proof", "Proved for every schema and root (182 obligations, recursion by contract): on success the result is a fresh object whose flags are coherent (simple-schema = known-type or simple-array or simple-map; simple-array implies array; simple-map implies map; map/extended-object, tuple/tuple-with-extra, array/tuple mutually exclusive), also on the $ref path where all seventeen flags are copied from the classification of the expanded target (contract on inherits: exact copy) and the simple-schema flag is recomputed; for schemas without $ref the flags IsTuple, IsTupleWithExtra, IsArray, IsMap, IsExtendedObject, IsEnum equal their documented definitions and the documented complexity rules hold (object with properties, allOf, tuples complex; primitives, arrays, maps, empty objects not); no panic. Termination is NOT decided: the known non-termination on self-containing maps/arrays is listed as a known finding (F10). Transparency is relative to the dependency spec.ExpandSchema.", "DESIGN.md §7.C20"),
  "C19": ("proof", "Every obligation generated from FixEmptyDesc, FixEmptyDescs and FixEmptyResponseDescriptions against their contracts is discharged for all documents: shared, default and status-code responses under all seven methods become fixResp(old); only Response objects and status-code maps are written and each is old or fixResp(old); no panic for any non-nil document (incl. operations without responses, no paths); idempotence by lemma fixIdem.", "DESIGN.md §7.C19"),
+ "C10": ("proof", "Ghost predicate synced(s) (index of s equals the index of its document; an uninterpreted function of all document and index heaps, established only by reload and destroyed by any write to those heaps). Proved for Flatten and its eleven phase functions, for all option values at once (options are symbolic): whenever Flatten returns nil, synced(opts.Spec) holds, i.e. the last mutation on every path is followed by a re-analysis. Relative to: reload establishes the index (C11-C14), and the assumed write-footprints of the rewrite primitives (replace.*, schutils.Save via InlineSchemaNamer.Name, spec.ExpandSpec: document heaps only).", "DESIGN.md §7.C10"),
  "C16": ("proof", "For New and for every exported method of *Spec (enumerated from go/types on every run, so a new method is covered without annotation) every heap write in the real body, including all inlined helpers and the recursive analyzer walk, is proved to target memory allocated during the call (1200+ frame obligations): building an analyzer and querying it never modifies the document or the index. The ten pattern/enum getters are proved to return a fresh map with exactly the entries of the internal one. Race-freedom for concurrent readers is inferred from these frames (a data race needs a write to shared memory; every query method writes only call-local fresh memory) — that inference and the internal synchronisation of dependencies (swag name cache) are a paper step, not machine-checked; goroutines, channels and sync are outside the verified subset, so a change introducing them makes the unit unverifiable and is reported.", "DESIGN.md §7.C16"),
  "C17": ("proof", "Proved for all documents (961 obligations): every keyed section helper (paths, definitions, parameters, responses, security definitions, extension maps) yields the union with the primary entry winning and exactly |dom(primary) ∩ dom(mixin)| warnings; list fields (consumes, produces, schemes, tags by name, security requirements by DeepEqual) keep the primary as a prefix, append only new elements of the mixin without duplicates, contain every mixin element, and tags/requirements emit exactly one warning per element not appended; scalar fields follow the fill-if-empty table (host, basePath, info and its parts, contact, license, externalDocs); initPrimary makes every section non-nil without touching existing ones; and Mixin as a whole never panics for any non-nil primary and non-nil mixins, with no separation assumption (aspect safety). Functional helper contracts assume the two documents do not share maps. Residual: composition across several mixins is not stated at Mixin level.", "DESIGN.md §7.C17"),
  "C18": ("proof", "Proved for all documents: pathItemOps returns exactly the non-nil operations of all seven methods, without duplicates; getOpIDs returns exactly the non-empty ids under all seven methods; mergePaths changes an id only to '<id>Mixin<N>', only for a non-empty id of an added path that was already recorded, records every resulting id, leaves id-less operations and all other operations untouched. Residual (not decided): the global pairwise-distinctness conclusion, which needs a provenance invariant over the whole mixin sequence.", "DESIGN.md §7.C18"),
